@@ -32,7 +32,8 @@ def exc_name(e: BaseException) -> str:
 
 class Real:
     def __init__(self, contents, depth=3, width=2, store_alg="SHA-256",
-                 ns="https://ns.dataone.org/service/types/v2.0#SystemMetadata", base=None, root=None, props=None):
+                 ns="https://ns.dataone.org/service/types/v2.0#SystemMetadata", base=None, root=None, props=None,
+                 mp=False):
         from hashstore.filehashstore import FileHashStore
         self.own_base = base is None
         self.base = base or scratch_base()
@@ -45,7 +46,19 @@ class Real:
             "store_path": self.root, "store_depth": depth, "store_width": width,
             "store_algorithm": store_alg, "store_metadata_namespace": ns,
         }
-        self.store = FileHashStore(properties=self.props)
+        if mp:
+            old = os.environ.get("USE_MULTIPROCESSING")
+            os.environ["USE_MULTIPROCESSING"] = "True"
+            try:
+                self.store = FileHashStore(properties=self.props)
+            finally:
+                if old is None:
+                    os.environ.pop("USE_MULTIPROCESSING", None)
+                else:
+                    os.environ["USE_MULTIPROCESSING"] = old
+        else:
+            self.store = FileHashStore(properties=self.props)
+        self.mp = mp
         self.last_stream = None   # (stream, offset) of the last caller-supplied stream
         self.open_streams = []
 
